@@ -37,6 +37,8 @@ def emit_types(d):
         fl = ''.join('\t%s %s\n' % (fn, texpr(d, ft)) for fn, ft in fields)
         out.append('type %s struct {\n\tterm string\n%s}\n' % (name, fl))
         finit = ''.join(', %s: mk_%s(rt.Fld(term, "%s"))' % (fn, ft, fn) for fn, ft in fields)
+        if ty.get('is_error'):
+            out.append('func (t %s%s) Error() string { return "i implement error, but i am a value" }\n' % ('*' if form == 'ptr' else '', name))
         if form == 'ptr':
             out.append('func (t *%s) GetTerm() string {\n\tif t == nil {\n\t\treturn "nil"\n\t}\n\treturn t.term\n}\n' % name)
             out.append('func mk_%s(term string) *%s { return &%s{term: term%s} }\n' % (name, name, name, finit))
